@@ -29,7 +29,12 @@ func runC12(run *Run, replay string) {
 		if bi%5 == 1 {
 			opts.Gen.MaxDepth = 3
 		}
-		for si, sc := range genScenarios(r, opts) {
+		scs12 := genScenarios(r, opts)
+		if bi%3 == 0 {
+			// fixed-value constraints against matching and non-matching written values (own random stream)
+			scs12 = append(scs12, literalValueFocusScenario(rand.New(rand.NewSource(subSeed(run.Res.Seed, 777000+bi)))))
+		}
+		for si, sc := range scs12 {
 			sc.W.Collect()
 			f := sc.Main.Ctx.Files[sc.File]
 			body, ok := f.Body.(*hclsyntax.Body)
